@@ -323,16 +323,8 @@ def run(ctx):
     if len(obs) < 5 and not info.get("unsupported"):
         ctx.checker_errors.append(f"only {len(obs)} connect-by-call obligations")
     ctx.discharge(obs, key + " [keyword loop body]", info)
-    off = ci.audit_ownership()
-    ctx.obligations += 1
-    if off:
-        from vcheck.core import Violation
-        ctx.violations.append(Violation("hdl21.instance:ownership-audit", f"conns / _connected_ports written outside "
-                              f"connect/replace/disconnect: {off[:3]}", {"property": "C04", "obligation":
-                              "frame/ownership-audit", "offenders": off}, False))
-    else:
-        ctx.discharged += 1
-        ctx.by_backend["ast-audit"] = ctx.by_backend.get("ast-audit", 0) + 1
+    ctx.frame_audit("hdl21.instance:ownership-audit", ci.audit_ownership(),
+                    "conns / _connected_ports written outside connect / replace / disconnect")
     ctx.assumptions.append("Inv_conn/Inv_refs hold in every reachable state by induction: established by the Instance "
                            "constructor (proved), preserved by connect/replace/disconnect (proved), and nothing else "
                            "writes the two structures (syntactic audit). InstanceArray / InstanceBundle constructors "
